@@ -356,6 +356,10 @@ fn main() {
         std::process::exit(res.finish());
     }
 
+    if std::env::var("VERIF_PROPERTY").as_deref() == Ok("C03") {
+        std::process::exit(c03_sweep(thorough));
+    }
+
     let privs = section_choices(PRIVS.len(), max_per_section);
     let roles = section_choices(ROLES.len(), max_per_section.min(2).max(2));
     let ids = section_choices(IDS.len(), max_per_section.min(2).max(2));
@@ -570,7 +574,88 @@ fn classify(d: &Doc, url: &str, got: bool, want: bool) -> String {
     format!("ref-mismatch:{}:got-{}-want-{}", tags.join("+"), if got { "allow" } else { "deny" }, if want { "allow" } else { "deny" })
 }
 
-#[allow(dead_code)]
-fn unused(_: AuthorizeResult) {
-    let _ = proxy_authorizer::authorize;
+
+
+/// C03, decision half: authorize() for WireServer / HostGAPlugin with every non-elevated caller
+/// under every rule document, mode and default must be Forbidden; the self endpoint is Forbidden
+/// for every caller (elevated too) under every rule set.
+fn c03_sweep(thorough: bool) -> i32 {
+    use gpa_harness::common::constants;
+    let mut res = EngineResult::new("C03");
+    let max = if thorough { 2 } else { 1 };
+    let privs = section_choices(PRIVS.len(), max);
+    let roles = section_choices(ROLES.len(), max);
+    let ids = section_choices(IDS.len(), max);
+    let asgs = section_choices(ASGS.len(), max);
+    let modes: &[(&str, &str)] = &[("enforce", "deny"), ("enforce", "allow"), ("audit", "allow"), ("Audit", "deny"), ("disabled", "allow"), ("bogus", "allow")];
+    let uris: Vec<hyper::Uri> = URLS.iter().map(|u| hyper::Uri::from_str(u).unwrap()).collect();
+    let mut lg = ConnectionLogger::new(0, 0);
+    let endpoints = [
+        ("wireserver", constants::WIRE_SERVER_IP, constants::WIRE_SERVER_PORT),
+        ("hostga", constants::GA_PLUGIN_IP, constants::GA_PLUGIN_PORT),
+        ("self", constants::PROXY_AGENT_IP, constants::PROXY_AGENT_PORT),
+    ];
+    let mut evals = 0u64;
+    let mut granted_cases = 0u64; // cases where the rules themselves would allow the caller (non-trivial)
+    let mut none_rules_done = false;
+    let mut lg2 = ConnectionLogger::new(0, 0);
+    let mut check = |res: &mut EngineResult, ep: &(&str, &str, u16), c: &Caller, u: usize, rules: Option<ComputedAuthorizationItem>, doc: serde_json::Value| {
+        let r = proxy_authorizer::authorize(ep.1.to_string(), ep.2, &mut lg2, uris[u].clone(), claims_of(c), rules);
+        if r != AuthorizeResult::Forbidden {
+            let what = if r == AuthorizeResult::Ok { "Ok" } else { "OkWithAudit" };
+            res.violation(
+                &format!("not-forbidden:{}:{}:{}", ep.0, if c.elevated { "elevated" } else { "non-elevated" }, what),
+                &format!("authorize() returned {} for endpoint {} caller {} url {}", what, ep.0, c.label, URLS[u]),
+                json!({"endpoint": ep.0, "caller": c.label, "url": URLS[u], "document": doc}),
+            );
+        }
+    };
+    for p in &privs {
+        for r in &roles {
+            for i in &ids {
+                for a in &asgs {
+                    let d = Doc { privs: p.clone(), roles: r.clone(), ids: i.clone(), asgs: a.clone() };
+                    for (mode, default) in modes {
+                        let item = to_item(&d, mode, default);
+                        let comp = ComputedAuthorizationItem::from_authorization_item(item);
+                        for ep in &endpoints {
+                            for c in CALLERS {
+                                if ep.0 != "self" && c.elevated {
+                                    continue;
+                                }
+                                for u in 0..uris.len() {
+                                    if comp.is_allowed(&mut lg, uris[u].clone(), claims_of(c)) {
+                                        granted_cases += 1;
+                                    }
+                                    evals += 1;
+                                    check(&mut res, ep, c, u, Some(comp.clone()), doc_json(&d, mode, default));
+                                }
+                            }
+                        }
+                    }
+                    if !none_rules_done {
+                        none_rules_done = true;
+                        for ep in &endpoints {
+                            for c in CALLERS {
+                                if ep.0 != "self" && c.elevated {
+                                    continue;
+                                }
+                                for u in 0..uris.len() {
+                                    evals += 1;
+                                    check(&mut res, ep, c, u, None, json!(null));
+                                }
+                            }
+                        }
+                    }
+                }
+            }
+        }
+    }
+    res.cov("evaluations", evals);
+    res.cov("distinct_nontrivial", granted_cases);
+    res.cov("exhaustive", true);
+    res.cov("rule", format!("authorize() for endpoints {{WireServer, HostGAPlugin}} x every non-elevated caller and endpoint self x every caller, under every rule document of the C02 pools (<= {max} entries per section, sections optionally absent) x {} mode/default pairs (incl. disabled, audit, unknown mode) and under no rules, x {} URLs; expected Forbidden everywhere; non-trivial = the rule set by itself would allow the caller", modes.len(), URLS.len()));
+    res.sample(json!({"endpoint": "wireserver", "caller": "alice", "url": URLS[0], "rules": "none", "expected": "Forbidden"}));
+    res.sample(json!({"endpoint": "self", "caller": "root", "url": URLS[0], "document": doc_json(&Doc{privs: Some(vec![0]), roles: Some(vec![0]), ids: Some(vec![4]), asgs: Some(vec![4])}, "disabled", "allow"), "expected": "Forbidden"}));
+    res.finish()
 }
